@@ -73,6 +73,9 @@ func init() {
 					feats = append(feats, "topk-tie-not-judged")
 					continue
 				}
+				if id := knownDifferential(c, c.Query, c.Series, c.Start, c.End, c.Step); id != "" {
+					return core.Verdict{Status: "known", Known: id, Features: feats}
+				}
 				return core.Verdict{Status: "violation", Features: feats, Evals: evals,
 					Detail: fmt.Sprintf("query: %s\nwindow: start=%d end=%d step=%d lookback=%d procs=%d\noptimizers=%s changes the result: %s\nplan (none): %s\nplan (%s): %s\nwith optimizers: %s\nwithout:         %s\n",
 						c.Query, c.Start, c.End, c.Step, c.Lookback, c.Procs, o, d, basePlan, o, p, r, base)}
